@@ -3,8 +3,8 @@
 Simulated nondeterminism: the sampler draw. Oracles, each only where the
 three-valued reference semantics entitles it:
  (a) must_reject(H, x)  =>  every entry point rejects for every enumerated draw;
- (b) reachability: x a sequence whose only bad item is i  =>  the draw r = i rejects and the draws
-     pointing at good items accept at that level (nothing is claimed beyond "some draw rejects");
+ (b) reachability: x a sequence whose only bad item is i  =>  at least one of the enumerated draws (0..4n-1,
+     2^31, 2^32-1, 12 random) rejects at every entry point; nothing is assumed about which draw selects which item;
  (c) is_random=False and only item 0 bad  =>  rejected for every draw and the sampler is not consumed;
  (d) acceptance  =>  some_path(H, x) (checked on arbitrary generated objects).
 """
@@ -69,8 +69,11 @@ def generate(rng, run, tier):
         nonrandom = rng.random() < 0.35
         for _ in range(30):
             child = H.gen_hint(rng, rng.choice([0, 1, 2]))
-            if rng.random() < 0.3:
+            r2 = rng.random()
+            if r2 < 0.25:
                 h = {'k': 'vtuple', 'a': [child], 't': rng.random() < 0.3}
+            elif r2 < 0.45:
+                h = {'k': 'iter', 'o': rng.choice(list(H.ITER_ORIGINS)), 'a': [child]}
             else:
                 h = {'k': 'seq', 'o': rng.choice(list(H.SEQ_ORIGINS)), 'a': [child]}
             if _nested_same_generic(h) and not allow_nested:
@@ -87,7 +90,7 @@ def generate(rng, run, tier):
                 conf = dict(conf, is_random=False)
             n = len(o['i'])
             return {'mode': 'item0' if nonrandom else 'onebad', 'h': h, 'x': o, 'i': i, 'conf': conf,
-                    'draws': list(range(n)) + [2 ** 31, 2 ** 32 - 1, n + i, rng.getrandbits(32)]}
+                    'draws': list(range(4 * n)) + [2 ** 31, 2 ** 32 - 1] + [rng.getrandbits(32) for _ in range(12)]}
     h = H.gen_hint(rng, rng.choice([1, 2, 3]))
     o = H.gen_any_obj(rng, 2)
     return {'mode': 'any', 'h': h, 'x': o, 'conf': conf, 'draws': H.effective_draws(rng, H.seq_lengths(h, o), cap=24)}
@@ -124,6 +127,7 @@ def execute(case):
     nonrandom = case['conf'].get('is_random') is False
     viol = None
     n = len(case['x'].get('i', [])) if mode in ('onebad', 'item0') else 0
+    rejected_by = set()
     for draw in case['draws']:
         verdicts = {}
         for ep in entry.ENTRY_POINTS:
@@ -146,11 +150,8 @@ def execute(case):
             if mode == 'item0' and c != 'reject':
                 viol = ('nonrandom_not_item0', 'draw %d: is_random=False, item 0 violates, but %s accepted' % (draw, ep), 'item0:' + ep)
                 break
-            if mode == 'onebad' and not nonrandom:
-                if draw % n == case['i'] and c != 'reject':
-                    viol = ('unreachable_index', 'draw %d selects the only violating item %d of %d but %s accepted' % (
-                        draw, case['i'], n, ep), 'unreachable:' + ep)
-                    break
+            if mode == 'onebad' and not nonrandom and c == 'reject':
+                rejected_by.add(ep)
             if mode == 'any' and c == 'accept' and not oneshot:
                 probes['accepted_arbitrary'] += 1
                 if not H.some_path(case['h'], x0):
@@ -159,11 +160,19 @@ def execute(case):
                     break
         if viol:
             break
+    if viol is None and mode == 'onebad' and not nonrandom:
+        # reachability: *some* enumerated draw must reject at every entry point (nothing is assumed about which)
+        missing = [ep for ep in entry.ENTRY_POINTS if ep not in rejected_by]
+        if missing:
+            viol = ('unreachable_index', 'only item %d of %d violates, yet none of the %d enumerated draws made %s reject' % (
+                case['i'], n, len(case['draws']), '/'.join(missing)), 'unreachable:' + str(n))
     return c03._out(case, probes, viol, nontrivial=bool(probes['where_nested'] or mode in ('onebad', 'item0')))
 
 
 def shrink(case, violation):
-    if case['mode'] in ('onebad', 'item0'):
+    if case['mode'] == 'onebad':
+        return          # the reachability oracle quantifies over the whole enumeration: nothing to drop
+    if case['mode'] == 'item0':
         if len(case['draws']) > 1:
             for d in case['draws']:
                 yield dict(case, draws=[d])
